@@ -103,6 +103,18 @@ CLAIMED = {
     note='trusted: reference substitution/relation in vlib/ref.py, leaf/atom stubs',
     technique='rule lemmas with z3 atoms + bounded symbolic exploration with substitute-back on structural snapshots',
     design='4/C10'),
+ 'C17': dict(
+    text='Unit level: the lemma on _get_type_arg_variance (all inputs symbolic incl. both switches) and bounded symbolic execution, '
+         'under a symbolic RNG with the four switches symbolic, of gen_type_params, select_type, gen_func_decl (header: type '
+         'parameters, removal of unused ones), gen_class_decl (header) and the type-variable-free rebuilders, in java and kotlin '
+         '(thorough: all four languages, richer pools): no projection when use-site variance is disabled, no contravariant one when '
+         'contravariance is disabled, no bound when bounded type parameters are disabled, no type parameters when parameterized '
+         'functions are disabled, function type parameters invariant, variant class parameters only for kotlin/scala. A static scan '
+         'requires every WildCardType construction site of /repo/src to be covered by an obligation. Whole programs are not explored.',
+    note='trusted: symbolic RNG contract; reduced built-in pools and max_type_params=2 are stated bounds; recorded finding: the '
+         'type-variable-free rebuilders ignore the use-site-variance switch',
+    technique='symbolic lemma + bounded symbolic execution of type-emitting generator units with symbolic switches and RNG; static site scan',
+    design='4/C17'),
 }
 
 NOT_YET = 'check not built yet in this round (planned per DESIGN.md build order); not claimed'
